@@ -242,9 +242,9 @@ Proof. exact (fun lb k p e i => exec_returns lb k p e i). Qed.
 Print Assumptions C10_verdict_total.
 
 (* the code evaluates every predicate as documented, except AS-path predicates
-   of a bmp-in filter on a message of a peer that uses 2-octet AS numbers *)
+   of a bmp-in or bgp-in filter on a message of a peer that uses 2-octet AS numbers *)
 Theorem C10_predicates_as_documented_partial : forall k p i,
-  k <> FBmp \/ in_legacy_as i = false -> eval k p i = eval_spec k p i.
+  k = FRib \/ in_legacy_as i = false -> eval k p i = eval_spec k p i.
 Proof. exact eval_meets_spec_partial. Qed.
 Print Assumptions C10_predicates_as_documented_partial.
 
@@ -253,6 +253,107 @@ Theorem C10_bmp_legacy_aspath_refuted :
   eval_spec FBmp legacy_witness_prog legacy_witness_input = (false, []).
 Proof. exact eval_legacy_refuted. Qed.
 Print Assumptions C10_bmp_legacy_aspath_refuted.
+
+(* the same at bgp-in on a session whose peer did not send the 4-octet AS number capability *)
+Theorem C10_bgp_legacy_aspath_refuted :
+  eval FBgp legacy_witness_prog bgp_legacy_witness_input = (true, []) /\
+  eval_spec FBgp legacy_witness_prog bgp_legacy_witness_input = (false, []).
+Proof. exact eval_bgp_legacy_refuted. Qed.
+Print Assumptions C10_bgp_legacy_aspath_refuted.
+
+(* ---- the provenance a filter is handed (round 4) ----
+   [bmsg] = every BMP message type of RFC 7854 (the six of the session state machine model + Route Mirroring);
+   [bmp_prov c b] = the Provenance process_msg hands the bmp-in filter for message b on a connection whose own
+   provenance is c ([conn_prov rid addr]: the router's ingress id and address, AS0); [bmp_view] = the filter input. *)
+
+(* which messages carry a per-peer header: all but Initiation and Termination *)
+Theorem C10_bmp_header_kinds : forall b,
+  (bmsg_pph b = None <-> bmsg_kind b = K_INIT \/ bmsg_kind b = K_TERM) /\
+  (is_Some (bmsg_pph b) <->
+   bmsg_kind b = K_RM \/ bmsg_kind b = K_STATS \/ bmsg_kind b = K_PEERDOWN \/ bmsg_kind b = K_PEERUP \/ bmsg_kind b = K_MIRROR) /\
+  bmsg_kind b < 7.
+Proof. exact bmsg_pph_kinds. Qed.
+Print Assumptions C10_bmp_header_kinds.
+
+(* the provenance a bmp-in filter sees is that of the message's per-peer header whenever it has one (peer address
+   and peer AS; the ingress id stays the connection's), else the connection's own (router address, AS0) *)
+Theorem C10_bmp_filter_sees_header_provenance : forall rid addr b a lg,
+  let i := bmp_view (conn_prov rid addr) b a lg in
+  (forall p, bmsg_pph b = Some p ->
+     bmp_prov (conn_prov rid addr) b = MkProv rid (ph_addr p) (ph_asn p) /\ in_peer_asn i = ph_asn p) /\
+  (bmsg_pph b = None -> bmp_prov (conn_prov rid addr) b = conn_prov rid addr /\ in_peer_asn i = 0) /\
+  in_ingress i = rid.
+Proof. exact bmp_filter_sees_header_provenance. Qed.
+Print Assumptions C10_bmp_filter_sees_header_provenance.
+
+(* a filter on peer_asn (a program whose conditions read nothing but prov.peer_asn()) gives the same verdict and
+   the same output entries to every message type about the same peer; to the header-less messages what it gives AS0;
+   at bgp-in to every UPDATE of the session *)
+Theorem C10_peer_asn_filter_uniform :
+  (forall lb p c b1 b2 q1 q2 a1 a2 l1 l2,
+     prov_only p = true -> bmsg_pph b1 = Some q1 -> bmsg_pph b2 = Some q2 -> ph_asn q1 = ph_asn q2 ->
+     eval_gen lb FBmp p (bmp_view c b1 a1 l1) = eval_gen lb FBmp p (bmp_view c b2 a2 l2)) /\
+  (forall lb p rid addr b1 b2 a1 a2 l1 l2,
+     prov_only p = true -> bmsg_pph b1 = None -> bmsg_pph b2 = None ->
+     eval_gen lb FBmp p (bmp_view (conn_prov rid addr) b1 a1 l1) = eval_gen lb FBmp p (bmp_view (conn_prov rid addr) b2 a2 l2)) /\
+  (forall lb p pv u1 u2 a1 a2 l1 l2,
+     prov_only p = true -> eval_gen lb FBgp p (bgp_view pv u1 a1 l1) = eval_gen lb FBgp p (bgp_view pv u2 a2 l2)) /\
+  (forall lb k p i1 i2, prov_only p = true -> in_peer_asn i1 = in_peer_asn i2 -> eval_gen lb k p i1 = eval_gen lb k p i2).
+Proof. exact (conj bmp_peer_filter_uniform (conj bmp_peer_filter_headerless (conj bgp_peer_filter_uniform eval_prov_only))). Qed.
+Print Assumptions C10_peer_asn_filter_uniform.
+
+(* hence: a peer_asn filter that rejects one message about a peer keeps EVERY message about that peer - Statistics
+   Report and Route Mirroring included - from the state machine: state untouched, not counted as processed, no
+   update, and the same output entries leave the unit *)
+Theorem C10_bmp_peer_filter_rejects_every_type : forall lb render p rid st c cn b0 b q0 q a0 a l0 l,
+  prov_only p = true ->
+  bmsg_pph b0 = Some q0 -> bmsg_pph b = Some q -> ph_asn q0 = ph_asn q ->
+  fst (eval_gen lb FBmp p (bmp_view cn b0 a0 l0)) = false ->
+  let m := (b, bmp_view cn b a l) in
+  let res := bmp_unit_cnt lb render (Some p) rid (st, c) m in
+  fst (fst res) = st /\ bc_proc (snd (fst res)) = bc_proc c /\ bc_inval (snd (fst res)) = bc_inval c /\
+  upds_of (snd res) = [] /\
+  outs_of (snd res) = omap (render (snd m)) (snd (eval_gen lb FBmp p (bmp_view cn b0 a0 l0))).
+Proof. exact bmp_peer_filter_rejects_all. Qed.
+Print Assumptions C10_bmp_peer_filter_rejects_every_type.
+
+(* the counters of the connection handler over a whole connection of any length: the state machine has seen exactly
+   the messages the filter let through, in order; processed = their number; invalid = those of them the state
+   machine refused; received = every message, by RFC 7854 type, whatever the verdict *)
+Theorem C10_bmp_counters_follow_verdicts : forall lb render flt rid ms st c,
+  let res := bmp_run_cnt lb render flt rid (st, c) ms in
+  let acc := List.filter (bmp_lets_through lb flt) ms in
+  let smr := sm_run (fst st) rid (snd st) (map (fun m : bmsg * input => bmsg_sm (fst m)) acc) in
+  fst (fst res) = (fst (fst smr), snd (fst smr)) /\
+  bc_proc (snd (fst res)) = bc_proc c + N.of_nat (length acc) /\
+  bc_inval (snd (fst res)) = bc_inval c + count_invalid (snd smr) /\
+  (forall j, bc_recv (snd (fst res)) j = bc_recv c j + count_kind j ms).
+Proof. exact bmp_run_cnt_counts. Qed.
+Print Assumptions C10_bmp_counters_follow_verdicts.
+
+(* bgp-in and rib-in-pre: the UPDATE (whatever it carries) is judged with the session's provenance; the id on an
+   output message of the rib unit is the one of the provenance in the payload's context, Fresh and Mrt alike *)
+Theorem C10_other_sites_provenance :
+  (forall pv u a lg, in_peer_asn (bgp_view pv u a lg) = pv_asn pv /\ in_ingress (bgp_view pv u a lg) = pv_ingress pv) /\
+  (forall c k a, in_ingress (rib_view_ctx c k a) = k_mui k /\ in_peer_asn (rib_view_ctx c k a) = 0).
+Proof. exact (conj bgp_view_fields rib_view_ingress). Qed.
+Print Assumptions C10_other_sites_provenance.
+
+(* non-vacuity: "reject and log everything about AS12345" *)
+Example C10_provenance_example :
+  let q : pph := (0, 0, 0, 0, 1, 12345, 1) in
+  let q' : pph := (0, 0, 0, 0, 2, 54321, 2) in
+  let cn := conn_prov 1 99 in
+  let na := MkAttrs None [] [] [] in
+  let v b := bmp_view cn b na false in
+  let ms := [(BMsg MInit, v (BMsg MInit)); (BMsg (MPeerDown q), v (BMsg (MPeerDown q)));
+             (BMsg (MStats q), v (BMsg (MStats q))); (BMirror q, v (BMirror q)); (BMsg (MStats q'), v (BMsg (MStats q')))] in
+  let res := bmp_run_cnt true render_bmp (Some prov_witness_prog) 1 ((IngressModel.reg_new, sm_init), cnt0) ms in
+  prov_only prov_witness_prog = true /\ returns prov_witness_prog = true /\
+  map (bmp_lets_through true (Some prov_witness_prog)) ms = [true; false; false; false; true] /\
+  bc_proc (snd (fst res)) = 2 /\ map (bc_recv (snd (fst res))) [0; 1; 2; 3; 4; 5; 6] = [0; 2; 1; 0; 1; 0; 1] /\
+  outs_of (snd res) = [OsmTopic 2 None 1; OsmTopic 2 None 1; OsmTopic 2 None 1].
+Proof. exact prov_witness. Qed.
 
 (* ---- which script a unit's filter comes from (E2e/E2eModel.v; tied to the code by the `e2e` engine: a real
    pipeline started with a roto_script, the script edited / renamed / removed, reloads that start a second RIB
